@@ -612,6 +612,10 @@ struct World {
     defaults: Defaults,
     /// builtin groups outside the closure that are not dynamic, ascending
     roles: Vec<Uuid>,
+    /// number of role subsets driven (actors: nsub persons, nsub service accounts, then the controls)
+    nsub: usize,
+    /// the groups of the closure as the server stored them
+    hp_groups: BTreeSet<Uuid>,
     actors: Vec<Actor>,
     targets: Vec<Target>,
     /// uuid → is high-privilege (stored `memberof` contains idm_high_privilege), for every entry
@@ -691,8 +695,23 @@ impl World {
         // the split into high-privilege and other groups as the *server* stored it
         let is_hp_group = |g: &GroupD| g.uuid == hp.as_u128() || g.memberof.contains(&hp.as_u128());
         let roles: Vec<Uuid> = defaults.groups.iter().filter(|g| !is_hp_group(g) && !g.dynamic).map(|g| Uuid::from_u128(g.uuid)).collect();
-        assert!(roles.len() <= 10, "too many builtin groups outside the closure for the exhaustive subset sweep: {}", roles.len());
-        let nsub = 1u64 << roles.len();
+        // every subset while that is at most 256 (the shipped data: 6 groups, 64 subsets); beyond that
+        // (a tree in which many groups dropped out of the closure) none, every single group, all of them,
+        // and 120 seeded random subsets. First = empty set, last = all groups.
+        let full_mask: u64 = if roles.len() >= 64 { u64::MAX } else { (1u64 << roles.len()) - 1 };
+        let subsets: Vec<u64> = if roles.len() <= 8 {
+            (0..=full_mask).collect()
+        } else {
+            let mut v: Vec<u64> = vec![0];
+            v.extend((0..roles.len().min(64)).map(|i| 1u64 << i));
+            let mut r = Rng::for_case(0xC25, 7);
+            for _ in 0..120 {
+                v.push(r.next() & full_mask);
+            }
+            v.push(full_mask);
+            v
+        };
+        let nsub = subsets.len() as u64;
 
         let mut actor_ids: Vec<(Uuid, String, &'static str)> = vec![];
         let mut targets: Vec<(Uuid, String)> = vec![];
@@ -702,12 +721,12 @@ impl World {
             for s in 0..nsub {
                 let u = wu(0x1000 + s);
                 es.push(person(&format!("c25p{s}"), u));
-                actor_ids.push((u, format!("person:{s:b}"), "person"));
+                actor_ids.push((u, format!("person:{:b}", subsets[s as usize]), "person"));
             }
             for s in 0..nsub {
                 let u = wu(0x2000 + s);
                 es.push(service(&format!("c25s{s}"), u, None));
-                actor_ids.push((u, format!("service:{s:b}"), "service"));
+                actor_ids.push((u, format!("service:{:b}", subsets[s as usize]), "service"));
             }
             let hp_actor_groups = [
                 ("idm_people_admins", UUID_IDM_PEOPLE_ADMINS),
@@ -747,7 +766,7 @@ impl World {
             for (i, g) in roles.iter().enumerate() {
                 let mut ms = vec![];
                 for s in 0..nsub {
-                    if s & (1 << i) != 0 {
+                    if i < 64 && subsets[s as usize] & (1u64 << i) != 0 {
                         ms.push(wu(0x1000 + s));
                         ms.push(wu(0x2000 + s));
                     }
@@ -825,7 +844,8 @@ impl World {
             })
             .collect();
         drop(txn);
-        World { qs, ct, defaults, roles, actors, targets, hp_of, plain_person: wu(0x110) }
+        let hp_groups: BTreeSet<Uuid> = defaults.groups.iter().filter(|g| is_hp_group(g)).map(|g| Uuid::from_u128(g.uuid)).collect();
+        World { qs, ct, defaults, roles, nsub: nsub as usize, hp_groups, actors, targets, hp_of, plain_person: wu(0x110) }
     }
 }
 
@@ -1338,6 +1358,40 @@ fn run_create(cx: &mut Ctx<'_>, txn: &mut QueryServerWriteTransaction<'_>, ai: u
 
 const TABLES: [&str; 10] = ["hp", "groups", "names", "managers", "memberof", "accounts", "dyn", "modify", "create", "delete"];
 
+/// `km_c25 defaults <what>` against the canonical text of the booted server's data
+fn compare_tables(d: &mut Driver, w: &World, names: &Names) -> (Vec<&'static str>, Vec<Failure>) {
+    let mut stale = vec![];
+    let mut fails = vec![];
+    for what in TABLES {
+        let model = d.ask(&format!("defaults\t{what}"));
+        match w.defaults.canonical(what, names) {
+            Ok(real) => {
+                if model != real {
+                    stale.push(what);
+                    fails.push(Failure {
+                        kind: "impl-vs-model".into(),
+                        class: format!("c25-default-table-stale:{what}"),
+                        input: json!({"replay": {"table": what}}),
+                        expected: format!("model table: {}", model.chars().take(1500).collect::<String>()),
+                        observed: format!("booted server: {}", real.chars().take(1500).collect::<String>()),
+                    });
+                }
+            }
+            Err(e) => {
+                stale.push(what);
+                fails.push(Failure {
+                    kind: "impl-vs-model".into(),
+                    class: format!("c25-default-table-unmodelled:{what}"),
+                    input: json!({"replay": {"table": what}}),
+                    expected: "a default profile inside the modelled grammar".into(),
+                    observed: e,
+                });
+            }
+        }
+    }
+    (stale, fails)
+}
+
 async fn dump_lean(out: &str, inject_kind: Option<&str>) -> Result<String, String> {
     let dir = std::path::Path::new(out).parent().ok_or("no parent dir")?;
     let names = Names::from_lean_file(dir.join("AccessProtected.lean").to_str().ok_or("path")?)?;
@@ -1396,34 +1450,51 @@ async fn main() {
     assert_eq!(sens, mine, "the harness's and the model's sensitive attribute lists differ");
 
     // 1. the compiled tables are what this server holds
-    let mut stale = vec![];
-    for what in TABLES {
-        let model = d.ask(&format!("defaults\t{what}"));
-        match w.defaults.canonical(what, &names) {
-            Ok(real) => {
-                if model != real {
-                    stale.push(what);
-                    rep.fail(Failure {
-                        kind: "impl-vs-model".into(),
-                        class: format!("c25-default-table-stale:{what}"),
-                        input: json!({"replay": {"table": what}}),
-                        expected: format!("model table: {}", model.chars().take(1500).collect::<String>()),
-                        observed: format!("booted server: {}", real.chars().take(1500).collect::<String>()),
-                    });
+    let (mut stale, mut stale_failures) = compare_tables(&mut d, &w, &names);
+    rep.count_n("tables-compared", TABLES.len() as u64);
+    // The translate stage regenerates the table before `lake build`; when it could not (harness build
+    // slower than its time budget) the compiled table is the committed snapshot. If that differs from
+    // this server, regenerate now, re-prove, and continue with the rebuilt driver: a changed table over
+    // which the theorems still hold is not a finding. (Not during a replay, not for injected self-tests.)
+    if !stale.is_empty() && args.replay.is_none() && (!args.extra.contains_key("inject") || args.extra.contains_key("regenerate")) && !args.extra.contains_key("no-regenerate") {
+        match w.defaults.lean_module(&names) {
+            Ok(text) => {
+                let lean_dir = std::path::Path::new(&args.driver).ancestors().nth(4).map(|p| p.to_path_buf());
+                if let Some(lean_dir) = lean_dir.filter(|p| p.join("lakefile.toml").exists()) {
+                    let gen = lean_dir.join("KanidmModel").join("Generated").join("DefaultAccess.lean");
+                    drop(d);
+                    std::fs::write(&gen, &text).expect("rewrite DefaultAccess.lean");
+                    let o = std::process::Command::new("lake").args(["build", "KanidmProofs.C25", "km_c25"]).current_dir(&lean_dir).output();
+                    d = Driver::spawn(&args.driver);
+                    match o {
+                        Ok(o) if o.status.success() => {
+                            let (s2, f2) = compare_tables(&mut d, &w, &names);
+                            rep.note(format!(
+                                "tables {stale:?} were stale at translate time: DefaultAccess.lean regenerated from the booted server and KanidmProofs.C25 re-proved in the harness stage (still stale afterwards: {s2:?})"
+                            ));
+                            stale = s2;
+                            stale_failures = f2;
+                        }
+                        Ok(o) => {
+                            let out = format!("{}{}", String::from_utf8_lossy(&o.stdout), String::from_utf8_lossy(&o.stderr));
+                            let errs: Vec<&str> = out.lines().filter(|l| l.contains("error")).take(8).collect();
+                            stale_failures.push(Failure {
+                                kind: "impl-vs-model".into(),
+                                class: "c25-default-table-breaks-theorems".into(),
+                                input: json!({"replay": {"table": "regenerated"}}),
+                                expected: "KanidmProofs.C25 builds over the table dumped from the booted server".into(),
+                                observed: errs.join(" | ").chars().take(1500).collect(),
+                            });
+                        }
+                        Err(e) => rep.note(format!("could not run lake to re-prove over the regenerated table: {e}")),
+                    }
                 }
             }
-            Err(e) => {
-                stale.push(what);
-                rep.fail(Failure {
-                    kind: "impl-vs-model".into(),
-                    class: format!("c25-default-table-unmodelled:{what}"),
-                    input: json!({"replay": {"table": what}}),
-                    expected: "a default profile inside the modelled grammar".into(),
-                    observed: e,
-                });
-            }
+            Err(e) => rep.note(format!("the booted server's defaults cannot be printed as Lean data: {e}")),
         }
-        rep.count("tables-compared");
+    }
+    for f in stale_failures {
+        rep.fail(f);
     }
     // the closure the model computes for the high-privilege group = the server's memberof
     let model_hp = d.ask("hpgroups");
@@ -1467,16 +1538,19 @@ async fn main() {
             });
         }
     }
-    // every subset actor really is outside the closure, every hp twin inside (oracle precondition)
+    // "directly or transitively a member": an account is high-privilege exactly when one of the groups
+    // it was put into (directmemberof) is a group of the closure — for every actor, as stored
     for a in &w.actors {
         let hp = a.memberof.contains(&UUID_IDM_HIGH_PRIVILEGE);
-        if hp != (a.kind == "hp-person") {
+        let expected = a.direct.iter().any(|g| w.hp_groups.contains(g));
+        rep.count(&format!("actor:{}:{}", a.kind, if hp { "high-privilege" } else { "outside" }));
+        if hp != expected {
             rep.fail(Failure {
                 kind: "impl-vs-oracle".into(),
-                class: "c25-role-subset-is-high-privilege".into(),
+                class: "c25-membership-not-transitive".into(),
                 input: json!({"replay": {"actor": a.label}}),
-                expected: "a user holding only builtin groups outside the closure is not high-privilege (and the control actors are)".into(),
-                observed: format!("{}: memberof {:?}", a.label, a.memberof),
+                expected: format!("memberof contains idm_high_privilege iff a direct group is in the closure ({expected})"),
+                observed: format!("{}: directmemberof {:?}, memberof {:?}", a.label, a.direct, a.memberof),
             });
         }
     }
@@ -1518,7 +1592,7 @@ async fn main() {
 
     // sampling: the full-role and no-role actors of each kind and the control actors see everything at
     // decision level; the other subsets a seeded fraction (all of it in the thorough tier)
-    let nsub = 1usize << w.roles.len();
+    let nsub = w.nsub;
     let always = |ai: usize| ai == 0 || ai == nsub - 1 || ai == nsub || ai == 2 * nsub - 1;
     let (dnum, dden) = if args.thorough() { (1, 1) } else { (args.budget.min(16), 16) };
     let (onum, oden) = if args.thorough() { (args.budget.min(6), 6) } else { (args.budget.min(40), 40) };
